@@ -110,7 +110,7 @@ def run (j : Json) : Except String Json := do
     | some x => do match (← docOfJson x) with | .obj kvs => pure kvs | _ => throw "kw"
   let initV := match get "version" (versionedInitKw msOpt kw) with
     | some (.int i) => some i | _ => none
-  let upg := match docVersion doc with
+  let upg := match effectiveVersion doc with
     | some v => if 1 ≤ v then some (sameResult (upgrade ms ms.length doc) full) else none
     | none => none
   -- single-step contract (Spec) on consecutive prefix states: state k -> state k+1 is one application of ms[k]
